@@ -10,6 +10,7 @@ package py
 
 import (
 	"fmt"
+	"math/big"
 	"reflect"
 	"strings"
 )
@@ -126,10 +127,36 @@ func IndexInt(a Object) (int, error) {
 	return intI, nil
 }
 
+// As IndexInt but for a bound of a slice: an integer of any magnitude
+// is accepted and clipped to the range of an int, as out of range
+// bounds are clipped to the sequence anyway
+func IndexIntClip(a Object) (int, error) {
+	if b, ok := a.(*BigInt); ok && !(*big.Int)(b).IsInt64() {
+		if (*big.Int)(b).Sign() < 0 {
+			return GoIntMin, nil
+		}
+		return GoIntMax, nil
+	}
+	i, err := Index(a)
+	if err != nil {
+		return 0, err
+	}
+	if i > Int(GoIntMax) {
+		return GoIntMax, nil
+	}
+	if i < Int(GoIntMin) {
+		return GoIntMin, nil
+	}
+	return int(i), nil
+}
+
 // As IndexInt but if index is -ve addresses it from the end
 //
 // If index is out of range throws IndexError
 func IndexIntCheck(a Object, max int) (int, error) {
+	if b, ok := a.(*BigInt); ok && !(*big.Int)(b).IsInt64() {
+		return 0, ExceptionNewf(IndexError, "cannot fit 'int' into an index-sized integer")
+	}
 	i, err := IndexInt(a)
 	if err != nil {
 		return 0, err
